@@ -43,6 +43,30 @@ def _cases(tier, rng):
     yield {'kind': 'mux', 'term': [['map', ['raise_if_mod', 2, 0]], ['route'], ['to_list']], 'items': [1, 2, 3, 4]}
     yield {'kind': 'mux', 'term': [['scan', ['raise_if_mod', 3, 0], 0, False, None], ['err_map', -1], ['to_list']], 'items': [1, 3, 2]}
     yield {'kind': 'mux', 'term': [['map', ['raise_if_mod', 2, 0]]], 'items': [1, 2, 3]}
+    # an accumulator that changes the object it was given BEFORE it raises (records the item in a list, then validates it).  A raise on
+    # the first item(s) of a key lifetime happens on a seed copy nobody else holds: the item must be as if absent.  (After a success
+    # the stored accumulator IS the object the function changes, so later failing items are outside the statement's reach: not generated.)
+    yield {'kind': 'mux', 'term': [['group_by', ['mod', 2], [['scan', ['append_raise_if_mod', 4, 1], {'l': []}, True, None], ['ignore']]]],
+           'items': [1, 2, 3, 4, 7], 'fail': [4, 1], 'op': 'scan'}
+    yield {'kind': 'mux', 'term': [['scan', ['append_raise_if_mod', 3, 0], {'l': []}, True, None, 'factory'], ['ignore']],
+           'items': [3, 6, 1, 2], 'fail': [3, 0], 'op': 'scan'}
+    for _ in range(30 if tier == 'quick' else 200):
+        k, r = rng.choice([(2, 0), (2, 1), (3, 0), (3, 2), (4, 1)])
+        m = rng.choice([0, 2, 3])
+        ok_seen, items = set(), []
+        for x in [rng.randint(0, 30) for _ in range(rng.choice([2, 3, 5, 8, 13]))]:
+            g = x % m if m else 0
+            if x % k == r and g in ok_seen:
+                continue            # a failing item after a success of its key: dropped (see above)
+            if x % k != r:
+                ok_seen.add(g)
+            items.append(x)
+        red = rng.random() < 0.6
+        sc = ['scan', ['append_raise_if_mod', k, r], {'l': []}, red, None] + rng.choice([[], ['factory']])
+        pipe = [sc, rng.choice([['ignore'], ['ignore'], ['route']])] + ([] if red else [['map', ['freeze']]])
+        if m:
+            pipe = [['group_by', ['mod', m], pipe]]
+        yield {'kind': 'mux', 'term': pipe, 'items': items, 'fail': [k, r], 'op': 'scan'}
     # replacement values that are falsy / None: the mapped item must still take the place of the failing one
     for v in (None, 0, False, ''):
         yield {'kind': 'mux', 'term': [['map', ['raise_if_mod', 2, 0]], ['err_map', v]], 'items': [2, 1, 4, 4, 3], 'fail': [2, 0], 'op': 'map'}
